@@ -26,7 +26,9 @@ ASSIGNS = ["o.x = {k}", "o.x = v + {k}", "o.x = o.x + {k}", "o.x = o.x", "o.x = 
 # the right-hand side may read the attribute again, of the same or of another instance of the class
 # (p is an instance of ANOTHER class that declares a thread-safe attribute of the same name)
 AUG_SELF = ["o.x {a} {k}", "o.x {a} v", "o . x {a} {k}", "o.x{a}{k}", "o.x {a} o.x", "o.x {a} o2.x",
-            "o.x {a} o.x + {k}", "o.x {a} max(o.x, {k})", "o.x {a} p.x", "p.x {a} o.x", "o.x {a} h.x"]
+            "o.x {a} o.x + {k}", "o.x {a} max(o.x, {k})", "o.x {a} p.x", "p.x {a} o.x", "o.x {a} h.x",
+            # the line reads the attribute once more, before or after the assignment
+            "if o.x > -99: o.x {a} {k}", "o.x {a} {k}; v = o.x", "v = o.x; o.x {a} {k}"]
 # the attribute looked up on the class instead of an instance
 CLASSREAD = ["v = K.x", "v = getattr(K, 'x')", "v = hasattr(K, 'x')", "v = type(o).x", "v = K.x {c} {k}",
              "v = [n for n in dir(K) if getattr(K, n, None) is None]"]
@@ -58,7 +60,8 @@ def statement(draw):
   if a in ("<<=", ">>=", "**=") and fam == "aug_other":
     a = draw(st.sampled_from(["+=", "-=", "*=", "|=", "&=", "^="]))
   return {"family": fam, "stmt": tmpl.format(c=draw(st.sampled_from(CMP)), a=a, k=k),
-          "initial": draw(st.integers(1, 3))}
+          "initial": draw(st.integers(1, 3)),
+          "big": draw(st.integers(0, 3)) == 0}      # the function refers to 140 other names first
 
 
 class CountingRLock:
@@ -102,9 +105,10 @@ class C28(Prop):
           "assignments whose right side reads the attribute again (o.x += o.x, o.x += o2.x for a second "
           "instance of the class, o.x += p.x / p.x += o.x for an instance p of another class that declares an "
           "attribute of the same name, h.x += o.x for a plain object h whose ordinary attribute has that name), "
+          "lines that read the attribute a second time before or after the assignment, "
           "and reads of the attribute through the class (K.x, getattr(K, 'x'), dir). The "
           "statement is written to a real source file (miros inspects the caller's source line), "
-          "compiled and executed once by the calling thread. Oracle: afterwards the attribute's lock "
+          "compiled and executed once by the calling thread; every statement is also run inside a function that refers to 140 other names first (extended bytecode arguments). Oracle: afterwards the attribute's lock "
           "(threading.RLock substituted in miros.thread_safe_attributes by a depth-counting "
           "wrapper) is held zero times, and a second real thread can acquire it without blocking. "
           "Non-trivial: the statement contains a comparison or an augmented assignment that does "
@@ -136,12 +140,13 @@ class C28(Prop):
               idx += 1
               if idx % nshards != shard:
                 continue
-              case = {"family": fam, "stmt": text, "initial": 2}
-              try:
-                self.check(case, stats)
-              except PropertyViolation as v:
-                yield case, v
-                return
+              for big in (False, True):
+                case = {"family": fam, "stmt": text, "initial": 2, "big": big}
+                try:
+                  self.check(case, stats)
+                except PropertyViolation as v:
+                  yield case, v
+                  return
     stats.classes["grammar_enumerated_completely"] = len(seen)
 
   def check(self, case, stats):
@@ -149,7 +154,8 @@ class C28(Prop):
     import miros
     stmt = case["stmt"]
     nontrivial = case["family"] in ("compare", "aug_other", "comment", "item")
-    stats.case({"stmt": stmt}, nontrivial, ["family_" + case["family"]])
+    stats.case({"stmt": stmt, "big": bool(case.get("big"))}, nontrivial,
+               ["family_" + case["family"]] + (["big_function"] if case.get("big") else []))
     saved = tsa.RLock
     tsa.RLock = CountingRLock
     del CountingRLock.created[:]
@@ -169,7 +175,11 @@ class C28(Prop):
       o2.x = [case["initial"], 1, 2] if case["family"] == "item" else case["initial"]
       path = os.path.join(d, "vf_stmt_case.py")
       body = "\n".join("  " + l for l in stmt.split("\n"))
-      src = "def run(o, v, w, h, o2, K, p):\n%s\n  return None\n" % body
+      pre = ""
+      if case.get("big"):
+        # more than 128 names ahead of the attribute's: its bytecode argument needs an extension
+        pre = "  if w is None:\n    (%s)\n" % ", ".join("vf_n%d" % i for i in range(140))
+      src = "def run(o, v, w, h, o2, K, p):\n%s%s\n  return None\n" % (pre, body)
       with open(path, "w") as f:
         f.write(src)
       linecache.checkcache(path)
